@@ -36,7 +36,7 @@ RULE = (
     "exists, but none in G' carry sig D4-not-shortest / D4-false-impossible, everything else is a violation. "
     "Cases whose greedy search tree (counted by the reference) exceeds 2500 nodes are skipped and counted "
     "(label skipped:library_search_too_large) because the library deep-copies every matcher per node; a library call that "
-    "nevertheless burns more than 40 s CPU is cut off and reported (hang protection). "
+    "nevertheless burns more than 20 s CPU is cut off and reported (hang protection). "
     "Non-trivial = the reference minimum needs at least one inserted symbol, or there are >= 2 patterns and >= 1 required "
     "symbol; distinct by (required, pattern texts, depth_limit, symbol_priority)."
 )
@@ -54,7 +54,7 @@ ASSUMPTIONS = [
 ]
 
 NODE_LIMIT = 2500
-LIBRARY_CPU_LIMIT = 40   # seconds of CPU time for one library call (hang protection)
+LIBRARY_CPU_LIMIT = 20   # seconds of CPU time for one library call (hang protection)
 
 
 def EXHAUSTIVE(tier):
@@ -468,6 +468,9 @@ def run_shard(spec, ctx):
         for i, (desc, req, texts) in enumerate(cases):
             if i % n != k:
                 continue
+            if ctx.expired():
+                col.inconclusive = 1
+                break
             trees = []
             ok = True
             for t in texts:
